@@ -149,7 +149,7 @@ pub fn case_value<T: V>(v: &T, r: &mut Rng, c: &mut Collector, q: &mut Vec<Pendi
     c.eval();
     let name = T::rust_name();
     let text = v.show();
-    let canon = v.canon();
+    let canon = v.expected();
     let case_id = format!("type={} value={}", name, text);
     let enc = impl_encode(v);
     c.stat(&format!("enc:{}", enc.kind()));
